@@ -137,7 +137,9 @@ def run_unit(unit, repo='/repo', rlimit=50, seed=None, threads=None, keep=True, 
     except Exception:
         pass
     diags = parse_stderr(p.stderr)
-    lines = open(out_path, encoding='utf-8').read().split('\n')
+    assembled = open(out_path, encoding='utf-8').read()
+    lines = assembled.split('\n')
+    glines = extract.ghost_lines(assembled)
     if js is not None:
         vr = js.get('verification-results', {})
         res['verified'] = vr.get('verified', 0)
@@ -162,7 +164,14 @@ def run_unit(unit, repo='/repo', rlimit=50, seed=None, threads=None, keep=True, 
             kind = kind_of(d['msg'])
             clause = d['clause'][1] if d['clause'] else src
             ob = '%s::%s::%s' % (unit, label, kind)
-            res['failures'].append({
+            # contract: a clause of the real function's own contract, a callee precondition at a real call site,
+            #           overflow / bounds / termination of real code
+            # hint:     located inside a spliced proof hint (assert, lemma precondition, loop invariant)
+            # lemma:    inside a pure lemma of the template (cannot depend on /repo)
+            level = 'contract' if ex else 'lemma'
+            if ex and line in glines:
+                level = 'hint'
+            res['failures'].append({'level': level,
                 'obligation': ob, 'clause': extract.norm_ws(clause)[:200], 'kind': kind, 'message': d['msg'],
                 'function': label, 'real_code': bool(ex), 'source': ({'file': ex['file'], 'lines': ex['lines'], 'sha256': ex['sha256']} if ex else None),
                 'at': extract.norm_ws(src)[:200], 'verus_output': d['text'][:4000]})
